@@ -21,7 +21,12 @@
 // systems, reduced (ops.go): <fs>@<class> builds the wrapper with an unclean
 // but equivalent spelling of B and must behave as the clean one; MemFS+out-links
 // adds base-side links that leave B's namespace (absolute targets, relative
-// targets climbing above B). No sampling.
+// targets climbing above B); MemFS+ro puts wrapper and reference on a
+// read-only view (rofs) of their file systems, so that the base refuses every
+// mutating call; MemFS+user makes the calls as a non-administrator user in a
+// world with root-owned, unsearchable and unreadable objects, so that the base
+// refuses reads and mutations at various depths: every failing path of every
+// call must translate its error paths. No sampling, no fault injection.
 //
 // Oracle on every call:
 //  1. everything outside B in the base (node-graph lines of VerifDump + exact
@@ -363,7 +368,7 @@ func main() {
 	bound := fmt.Sprintf("histories of length <= %d (completed %d); level 1: full alphabet of %d operations = all strings of <= %d segments over %v, abs/rel, as-is/trailing-slash/doubled-slash x %d single-path calls + %d-string core squared x Rename/Link/Symlink + Getwd + %d fixed Glob patterns + %d strings naming the prefix sibling %s of B x the single-path calls + base.Chdir(d) on the base itself, d in %v, each followed by Getwd, Abs(\"f\"), Stat(\"f\") through the wrapper + through the view sv=Sub(d), d in %v: %d operand strings x the single-path calls and %d operand pairs x Rename/Link/Symlink on sv (level 1 only) + sv.Symlink(t,%q) for %d targets t followed either by Lstat, Stat, ReadFile, ReadDir of the link through the wrapper and Stat, ReadFile through sv, or by WriteFile through the wrapper and through sv (all levels); + %d strings and %d pairs naming the base-side symbolic links %v + %d strings through the links of the variant out-links (level 1); level k >= 2: Getwd, the Glob patterns, the base.Chdir operations, the Sub-Symlink operations and the operations whose path operands are relative or contain '..' and have <= %v segments (levels 2..): %d operations at level 2, %d at level 3",
 		d, depthDone, perLevel[1], segs[0], segAlphabet, len(singleCalls), len(pairCore), len(fixedGlobs), len(siblingStrings), siblingPath, baseChdirTargets, subDirs, len(subPaths), len(subPairs), subLinkName, len(subLinkTargets), len(linkStrings), len(linkPairs), baseLinks, len(outLinkStrings), segs[1:], perLevel[2], perLevel[3])
 
-	bound += fmt.Sprintf("; variant systems: for every base type the wrapper built with each spelling of B in %v (a relative one from the base's cwd /top) - first level reduced to the %d operations that are not single-path calls on strings of more than 2 segments, next levels only from the states in which the base's cwd has moved to a cleanly spelled directory -, and MemFS+out-links with the links %v in B, first level (same %d operations) only", spellingList(), compactOps(ops), outLinks, compactOps(ops))
+	bound += fmt.Sprintf("; variant systems: for every base type the wrapper built with each spelling of B in %v (a relative one from the base's cwd /top) - first level reduced to the %d operations that are not single-path calls on strings of more than 2 segments, next levels only from the states in which the base's cwd has moved to a cleanly spelled directory -, and MemFS+out-links with the links %v in B, first level (same %d operations) only; MemFS+ro: BasePathFS(rofs.New(base)) against rofs.New(reference), the whole first level; MemFS+user: base and reference with an identity manager, calls made by the non-administrator user %q in a world with %s, first level = the same %d operations, which include %d strings and %d pairs naming that world", spellingList(), compactOps(ops), outLinks, compactOps(ops), userName, "w (the user's) holding w/f (the user's) and the root-owned non-empty w/locked, the root-owned 0700 directory p with p/f, the root-owned 0600 file s, everything else root-owned 0755/0644", compactOps(ops), len(userStrings), len(userPairs))
 
 	e := ev.Evidence{
 		PropertyID: *id, Tier: *tier, Seed: ev.Seed(), Level: "model_checking",
@@ -395,6 +400,7 @@ func main() {
 			"views returned by Sub are obtained and used inside one step (no view survives a step) for d in /a and /; over an OrefaFS base Sub is refused on both sides and nothing follows. A view that does not advertise FeatSymlink is expected to refuse Symlink/Readlink/EvalSymlinks as the wrapper does (EPERM, arguments as given, no effect); otherwise every call through the view, and every later call through the wrapper on what was created through it, must have the outcome and effect of the same call on the reference's Sub view / the reference. A read through the wrapper or a view that returns what the base holds at the place the operand or link target names in the BASE's namespace, outside B (outside the view), is kind outside-read; signatures of these steps have call Sub:<call> or SubLink[W].<sub-call>, path sub:<class> or link:abs|rel,<escape|view-existing|view-missing>, reach inside|above-view|outside-existing|outside-missing",
 			"symbolic links exist only over a MemFS base (OrefaFS has none: the operations naming them are skipped there and not counted); they are made through the base (and through the reference, same target strings) at setup, never between calls; the wrapper itself refuses Symlink/Readlink/EvalSymlinks, so link targets are compared through the node graphs, and the targets printed by the dump of a Sub view are left out",
 			"variant systems share the reference, hence the verdict, of the main ones; their signatures carry variant=basepath:<class> | out-links. In the out-links world the reference holds links with the same target strings, which there name its own namespace (absolute) or stop at its root (climbing), as in a chroot: a call through such a link that the base resolves outside B is kind outside-read / outside-changed (reach outside-via-link when the operand's own path stays in B)",
+			"failures of the base are produced only by file systems of the library used as they are - the read-only view rofs.New (variant ro: every mutating call refused) and MemFS's own permission checks for a non-administrator user (variant user) -, never by fault injection (no FailFS); in both variants the reference is built the same way (rofs.New(standalone), same user in the same world), so outcome kinds, effects and error paths are compared as everywhere else; signatures carry variant=ro|user; an error path that names an entry of the directory the reference's error names is classed entry-of-virtual-path",
 			"file handles are exercised inside compound operations (Open/OpenFile, methods, Close): no handle survives a step",
 		},
 		Violations: rep.NewCount(),
